@@ -1032,7 +1032,8 @@ class TrustRegion:
         )
         if x_new is None:
             sigma = 1.0
-            weights = dist_sq
+            weights = np.copy(dist_sq)
+            weights[self.best_index] = -1.0  # do not remove the best point
         else:
             sigma = self.models.determinants(x_new)
             weights = (
